@@ -11,11 +11,13 @@ import (
 	"reflect"
 	"runtime/debug"
 	"strings"
+	"sync"
 	"time"
 
 	"diagonal.works/b6"
 	"diagonal.works/b6/api"
 	"diagonal.works/b6/api/functions"
+	b6grpc "diagonal.works/b6/grpc"
 	"diagonal.works/b6/ingest"
 	pb "diagonal.works/b6/proto"
 	"google.golang.org/protobuf/proto"
@@ -100,6 +102,53 @@ type handleOptions struct {
 	DeadlineM int  // context deadline in ms (0 = none)
 	SkipWire  bool // do not round-trip the request through its proto encoding
 	Describe  bool // keep a description of the result
+	Service   bool // afterwards, send the same request to the real grpc service (fresh scratch world)
+}
+
+// viaService sends the request to the handler the server really runs (grpc.NewB6Service(...).Evaluate) on a
+// fresh scratch world. The staged transcription in handle() attributes panics to a step; this call covers what
+// only the handler itself does (the lock hand-over around a change, the version check, the final marshal).
+// A fatal error (e.g. unlocking an unlocked mutex) cannot be recovered: the worker dies and the parent reports it.
+func viaService(node *pb.NodeProto, o handleOptions, out *outcome) {
+	worlds, err := newScratchWorlds()
+	if err != nil {
+		panic("harness: " + err.Error())
+	}
+	var lock sync.RWMutex
+	svc := b6grpc.NewB6Service(worlds, api.Options{Cores: o.Cores, FileIOAllowed: false}, &lock)
+	ctx := context.Background()
+	if o.DeadlineM > 0 {
+		var cancel context.CancelFunc
+		ctx, cancel = context.WithTimeout(ctx, time.Duration(o.DeadlineM)*time.Millisecond)
+		defer cancel()
+	}
+	var so outcome
+	if stage("service", &so, func() error {
+		_, err := svc.Evaluate(ctx, &pb.EvaluateRequestProto{Request: node, Version: b6.ApiVersion})
+		return err
+	}) {
+		// the handler must leave the lock free: a writer and a reader can both get it
+		if !stage("service-lock", &so, func() error {
+			if !lock.TryLock() {
+				return fmt.Errorf("the service lock is still held after Evaluate returned")
+			}
+			lock.Unlock()
+			return nil
+		}) {
+			so.Kind = "panic"
+			so.Panic = so.Err
+			so.Site = "grpc.(*service).Evaluate"
+		}
+	} else if so.Kind == "error" {
+		if !lock.TryLock() {
+			so.Kind, so.Stage, so.Panic, so.Site = "panic", "service-lock", "the service lock is still held after Evaluate returned an error", "grpc.(*service).Evaluate"
+		} else {
+			lock.Unlock()
+		}
+	}
+	if so.Kind == "panic" {
+		*out = so
+	}
 }
 
 func handle(e b6.Expression, o handleOptions) (out outcome) {
@@ -198,6 +247,17 @@ func handle(e b6.Expression, o handleOptions) (out outcome) {
 	out.Kind, out.Stage = "value", "done"
 	if o.Describe {
 		out.Result = describe(v)
+	}
+	return out
+}
+
+// handleAll = handle, then (for a request that can be sent and did not already panic) the real service handler.
+func handleAll(e b6.Expression, o handleOptions) outcome {
+	out := handle(e, o)
+	if o.Service && !o.SkipWire && out.Kind != "panic" && out.Kind != "unsendable" {
+		if node, err := e.ToProto(); err == nil {
+			viaService(node, o, &out)
+		}
 	}
 	return out
 }
